@@ -338,7 +338,7 @@ func (r *Reader) get(ref Reference, canObjStm, scalarOnly bool) (_ Native, err e
 			}
 		}
 		getInt := safeGetInteger(lengthGetter{r}, true)
-		return getFromObjStm(r, ref.Number(), entry.InStream, getInt, r.enc)
+		return getFromObjStm(r, ref.Number(), entry.InStream, getInt, r.enc, scalarOnly)
 	}
 
 	s, err := r.scannerFrom(entry.Pos+r.headerOffset, canObjStm)
@@ -369,7 +369,7 @@ func (g lengthGetter) Get(ref Reference, canObjStm bool) (Native, error) {
 	return g.Reader.get(ref, canObjStm, true)
 }
 
-func getFromObjStm(r Getter, number uint32, sRef Reference, getInt getIntFn, enc *encryptInfo) (obj Native, err error) {
+func getFromObjStm(r Getter, number uint32, sRef Reference, getInt getIntFn, enc *encryptInfo, scalarOnly bool) (obj Native, err error) {
 	// We need to be careful to avoid infinite loops, in case reading from an
 	// object stream requires opening other object streams first.  This could
 	// be either caused by the stream object being contained in another object
@@ -423,6 +423,10 @@ func getFromObjStm(r Getter, number uint32, sRef Reference, getInt getIntFn, enc
 		return nil, err
 	}
 
+	// An indirect stream /Length is resolved in scalar-only mode also when it
+	// points into an object stream: a member of the form "<< /Length N 0 R >>
+	// stream" which is object N itself would otherwise recurse without bound.
+	contents.s.scalarOnly = scalarOnly
 	obj, err = contents.s.ReadObject()
 	if err != nil {
 		return nil, err
